@@ -131,9 +131,12 @@ func (s *Service) Handle(ctx context.Context, request []byte) (response []byte, 
 // handle calls the IO handler chain. A panic in an IO plugin or in the decoding of the
 // request (Process only guards the invocation itself) becomes the error of this call.
 func (s *Service) handle(ctx context.Context, request []byte) (response []byte, err error) {
+	panicking := true // panic(nil) makes recover return nil: only this tells it from a return (see Process)
 	defer func() {
 		if p := recover(); p != nil {
 			response, err = nil, NewPanicError(p)
+		} else if panicking {
+			response, err = nil, NewPanicError("panic called with nil argument")
 		}
 	}()
 	s.pluginLock.RLock()
@@ -142,7 +145,9 @@ func (s *Service) handle(ctx context.Context, request []byte) (response []byte, 
 		serviceContext.invokeHandler = s.invokeManager.Handler().(NextInvokeHandler)
 	}
 	s.pluginLock.RUnlock()
-	return ioHandler(ctx, request)
+	response, err = ioHandler(ctx, request)
+	panicking = false
+	return
 }
 
 // Process the reqeust and returns the response.
